@@ -30,8 +30,8 @@ type Exchange struct {
 	WriteHeaderCalls int    // explicit WriteHeader calls plus the implicit one of a first Write
 	Panic            string // non-empty: the handler panicked
 	PanicStack       string
-	CallsAtError     int  // storage calls of this request made when an error status was written (-1: no error status)
-	CallsAtEnd       int  // storage calls of this request when the handler returned
+	CallsAtError     int // storage calls of this request made when an error status was written (-1: no error status)
+	CallsAtEnd       int // storage calls of this request when the handler returned
 	NetFault         string
 }
 
